@@ -207,33 +207,30 @@ func VH_c04_update() {
 		verifrt.Assert("rejected-write-leaves-data-unchanged", pre.equalsList(ex))
 	} else {
 		verifrt.Reach("accepted")
-		applied := true
-		for i := 0; i < n; i++ {
+		applied, appliedAll := true, true
+		// per addressed element: has the change the write describes for it been made?
+		check := func(i int) bool {
 			e := pre.items[i]
-			if !addressed[i] || !verifrt.Concrete(l.changeable(e)) {
-				continue
-			}
 			if shape == "partial-selector" && nAddr > 1 {
-				continue // a selector matching several items: which one is updated is left open
+				return true // a selector matching several items: which one is updated is left open
 			}
 			if shape == "delete-partial" && verifrt.Concrete(verifrt.All(ref.selMatch(sel, e), l.keyEq(e, l.At(upd, 0)))) {
-				continue // deleted and written again: covered by "did-not-drop-a-written-item"
+				return true // deleted and written again: covered by "did-not-drop-a-written-item"
 			}
 			p := find(post, e)
 			deleted := (shape == "delete-selector") || (shape == "delete-partial" && verifrt.Concrete(ref.selMatch(sel, e)) && !verifrt.Concrete(l.keyEq(e, l.At(upd, 0))))
 			if deleted {
-				applied = verifrt.All(applied, p == nil)
-				continue
+				return p == nil
 			}
 			if p == nil {
-				applied = false
-				continue
+				return false
 			}
+			done := true
 			if elem != nil {
 				for _, f := range nonKey {
 					ef := vhF(elem, f)
 					if ef.IsValid() && verifrt.Concrete(!ef.IsNil()) {
-						applied = verifrt.All(applied, vhF(p, f).IsNil())
+						done = verifrt.All(done, vhF(p, f).IsNil())
 					}
 				}
 			}
@@ -242,12 +239,26 @@ func VH_c04_update() {
 				for _, f := range nonKey {
 					uf := vhF(u, f)
 					if uf.IsValid() && verifrt.Concrete(!uf.IsNil()) {
-						applied = verifrt.All(applied, vhFieldEq(p, u, f))
+						done = verifrt.All(done, vhFieldEq(p, u, f))
 					}
 				}
 			}
+			return done
+		}
+		for i := 0; i < n; i++ {
+			if !addressed[i] {
+				continue
+			}
+			c := check(i)
+			// success promises that every change was made, also one aimed at a protected element (which
+			// the first assertion keeps untouched: such a write cannot be answered with success)
+			appliedAll = verifrt.All(appliedAll, c)
+			if verifrt.Concrete(l.changeable(pre.items[i])) {
+				applied = verifrt.All(applied, c)
+			}
 		}
 		verifrt.Assert("accepted-write-applied-to-every-addressed-changeable-element", applied)
+		verifrt.Assert("accepted-write-applied-all-of-its-changes", appliedAll)
 		if (shape == "partial-ids" || shape == "delete-partial") && l.Len(upd) == 1 {
 			verifrt.Assert("accepted-write-did-not-drop-a-written-item", find(post, l.At(upd, 0)) != nil)
 		}
